@@ -465,6 +465,9 @@ func runGoTest(o *Options, pkg, test string, env []string, timeout string) (out 
 		return "no harness for package " + pkg, "", false
 	}
 	pkgDir := ""
+	if pkg == "main" {
+		pkgDir = filepath.Join(o.Repo, "cmd", "carbon-relay-ng")
+	}
 	filepath.Walk(o.Repo, func(p string, info os.FileInfo, err error) error {
 		if err == nil && info.IsDir() && filepath.Base(p) == pkg && pkgDir == "" && !strings.Contains(p, "/vendor/") && !strings.Contains(p, "/.git/") {
 			pkgDir = p
